@@ -1,0 +1,117 @@
+//go:build verif
+
+// Contracts for the govc deductive verifier (see /verif/DESIGN.md). This file is compiled only
+// under the build tag "verif"; it adds no behaviour to the package. Contract blocks are the //@
+// comments, keyed by function; the Go functions below are loop-free specification functions and
+// lemmas written from SEMI E37 and the property statements, not from the code they specify.
+package hsmsss
+
+// --- clause-language prelude (used by the verifier symbolically and by replay tests at run time) ---
+
+func zzOld[T any](x T) T   { return x }
+func zzImp(a, b bool) bool { return !a || b }
+
+type zzInt interface {
+	~int | ~int8 | ~int16 | ~int32 | ~int64 | ~uint | ~uint8 | ~uint16 | ~uint32 | ~uint64
+}
+
+// zzForall is a universal quantifier for the verifier; at replay time it samples a window.
+func zzForall[T zzInt](f func(T) bool) bool {
+	for j := -2; j < 70000; j++ {
+		if T(j) < 0 != (j < 0) {
+			continue
+		}
+		if !f(T(j)) {
+			return false
+		}
+	}
+	return true
+}
+func zzResult[T any](i int) (zero T) { panic("spec only") }
+func zzIter() int                    { panic("spec only") }
+
+// --- C19: linktest failure accounting (DESIGN.md Appendix F.7) ---
+
+// specLife: the peer showed life since the probe was sent.
+func specLife(recvNow, sentAt, inflight int64) bool { return recvNow > sentAt || inflight > 0 }
+
+//@ func linktestFailureStep
+//@ ensures [off]     !suppress ==> newFails == fails+1 && newRecvAtLastFail == recvNow && !credited
+//@ ensures [credit]  suppress && specLife(recvNow, sentAt, inflight) ==>
+//@                   newFails == 0 && newRecvAtLastFail == recvAtLastFail && credited
+//@ ensures [restart] suppress && !specLife(recvNow, sentAt, inflight) && fails > 0 && recvNow > recvAtLastFail ==>
+//@                   newFails == 1 && newRecvAtLastFail == recvNow && !credited
+//@ ensures [count]   suppress && !specLife(recvNow, sentAt, inflight) && !(fails > 0 && recvNow > recvAtLastFail) ==>
+//@                   newFails == fails+1 && newRecvAtLastFail == recvNow && !credited
+
+//@ func linktestDisconnectRecheck
+//@ ensures [table] result == (!suppress || !specLife(recvNow, sentAt, inflight))
+
+// Lemmas over the two contracts (callers see only the contracts above, never the bodies).
+
+// lemmaSilentStep: one probe timeout with no sign of life extends the run by exactly one, in
+// both modes; induction on the number of consecutive silent timeouts then gives "after k silent
+// timeouts starting from 0 the run length is k", so the threshold is reached at exactly k == threshold.
+//
+//@ func lemmaSilentStep
+//@ requires 0 <= fails && fails < 1<<62
+//@ requires !specLife(recvNow, sentAt, inflight)
+//@ requires fails == 0 || recvNow <= recvAtLastFail
+//@ ensures  [inc]   result0 == fails+1 && !result2
+//@ ensures  [stamp] result1 == recvNow
+
+func lemmaSilentStep(suppress bool, recvNow, sentAt, inflight int64, fails int, recvAtLastFail int64) (int, int64, bool) {
+	return linktestFailureStep(suppress, recvNow, sentAt, inflight, fails, recvAtLastFail)
+}
+
+// lemmaSilentChain: the stamp returned by a silent step keeps the next silent step's hypothesis
+// (recvNow' <= recvAtLastFail') as long as nothing is received in between (recvNow' == recvNow).
+//
+//@ func lemmaSilentChain
+//@ requires 0 <= fails && fails < 1<<61
+//@ requires !specLife(recvNow, sentAt, inflight) && !specLife(recvNow, sentAt2, inflight2)
+//@ requires fails == 0 || recvNow <= recvAtLastFail
+//@ ensures  [two] result == fails+2
+
+func lemmaSilentChain(suppress bool, recvNow, sentAt, sentAt2, inflight, inflight2 int64, fails int, recvAtLastFail int64) int {
+	f1, r1, _ := linktestFailureStep(suppress, recvNow, sentAt, inflight, fails, recvAtLastFail)
+	f2, _, _ := linktestFailureStep(suppress, recvNow, sentAt2, inflight2, f1, r1)
+	return f2
+}
+
+// lemmaSilentDisconnects: when the threshold is reached in silence, the fresh re-check confirms.
+//
+//@ func lemmaSilentDisconnects
+//@ requires !specLife(recvNow, sentAt, inflight)
+//@ ensures  [confirm] result
+
+func lemmaSilentDisconnects(suppress bool, inflight, recvNow, sentAt int64) bool {
+	return linktestDisconnectRecheck(suppress, inflight, recvNow, sentAt)
+}
+
+// lemmaLifeNeverDrops: with suppression on, a failed probe evaluated while the peer shows life
+// resets the run (credited), and a failure after life between timeouts restarts it at 1; so for
+// any threshold >= 2 such a step never reaches the threshold, and a re-check that sees life vetoes.
+//
+//@ func lemmaLifeNeverDrops
+//@ requires threshold >= 2 && 0 <= fails && fails < 1<<62
+//@ requires specLife(recvNow, sentAt, inflight) || (fails > 0 && recvNow > recvAtLastFail)
+//@ ensures  [below] result0 < threshold
+//@ ensures  [veto]  specLife(recvNow2, sentAt, inflight2) ==> !result1
+
+func lemmaLifeNeverDrops(threshold int, recvNow, sentAt, inflight int64, fails int, recvAtLastFail, recvNow2, inflight2 int64) (int, bool) {
+	f, _, _ := linktestFailureStep(true, recvNow, sentAt, inflight, fails, recvAtLastFail)
+	return f, linktestDisconnectRecheck(true, inflight2, recvNow2, sentAt)
+}
+
+// lemmaNoSuppressionCountsAll: with suppression off every timeout counts and the re-check never vetoes.
+//
+//@ func lemmaNoSuppressionCountsAll
+//@ requires 0 <= fails && fails < 1<<62
+//@ ensures  [inc]  result0 == fails+1
+//@ ensures  [drop] result1
+
+func lemmaNoSuppressionCountsAll(recvNow, sentAt, inflight int64, fails int, recvAtLastFail int64) (int, bool) {
+	f, _, _ := linktestFailureStep(false, recvNow, sentAt, inflight, fails, recvAtLastFail)
+	return f, linktestDisconnectRecheck(false, inflight, recvNow, sentAt)
+}
